@@ -40,7 +40,7 @@ def check(run):
     run.level = "other"
     run.explanation = ("bounded: the property is decided by multiset containment on rows of real pipeline runs; the append-only "
                        "stages (impute_reaction, MCSBasedMethod.run, Validator.check) are additionally verified deductively")
-    run.deductive(PC.MODULES)
+    PC.deductive(run)
     PC.bounded_rows(run, "given-molecules-kept", _row)
     run.assume("the marker surgery of RuleConstraint / curate_* (substring replace on whole side strings) is outside the verified "
                "subset; its call-site precondition (no marker inside the given part) is exercised only by the bounded runs")
